@@ -1154,6 +1154,19 @@ class _NP(object):
             r = elementwise(sym.to_real, r, rdtype='real') if isinstance(r, ArrBase) and r.ndim else r
         return r
 
+    def fromiter(self, it, dtype=None, count=-1):
+        vals = list(it)                      # a python iterable of concrete length (dict views, generators over concrete ranges)
+        if any(isinstance(v, (ArrBase, list, tuple)) for v in vals):
+            raise Unsupported('np.fromiter over non-scalar items')
+        if isinstance(count, int) and count >= 0:
+            if count > len(vals):
+                raise PyRaise('ValueError', 'iterator too short')
+            vals = vals[:count]
+        ds = str(getattr(dtype, '__name__', dtype))
+        if 'int' in ds and any(isinstance(_generic(v), float) or (isinstance(v, SV) and not v.is_int()) for v in vals):
+            raise Unsupported('np.fromiter truncating to an integer type')
+        return self.array(vals, dtype=dtype)
+
     def asarray(self, x, dtype=None):
         return x if isinstance(x, ArrBase) else to_arr(x)
 
